@@ -867,8 +867,14 @@ struct World : IWorld {
         static_class[1] = r.static_class[1];
         if (static_class[1] == static_class[0])
             static_class[1] = -1; // one slot per class; NodeD then has no registered static class
-        g_static_id[0] = r.ids[r.static_class[0]][0];
-        g_static_id[1] = static_class[1] >= 0 ? r.ids[r.static_class[1]][0] : (type_id)0x7fffffffffffff01ull;
+        // (written only when they change: several worlds are materialised concurrently in C16,
+        // with the same static ids)
+        type_id s0 = r.ids[r.static_class[0]][0];
+        type_id s1 = static_class[1] >= 0 ? r.ids[r.static_class[1]][0] : (type_id)0x7fffffffffffff01ull;
+        if (g_static_id[0] != s0)
+            g_static_id[0] = s0;
+        if (g_static_id[1] != s1)
+            g_static_id[1] = s1;
     }
 
     void add_record(const Registry& r, int k) override {
@@ -1053,6 +1059,54 @@ struct World : IWorld {
     }
     size_t catalog_methods() override {
         return P::methods.size();
+    }
+
+    template<class List>
+    static std::vector<const void*> enumerate(List& l, bool const_iter) {
+        std::vector<const void*> v;
+        if (const_iter) {
+            const List& cl = l;
+            for (auto it = cl.begin(); it != cl.end(); ++it)
+                v.push_back(&*it);
+        } else {
+            for (auto it = l.begin(); it != l.end(); it++)
+                v.push_back(&*it);
+        }
+        return v;
+    }
+    std::vector<const void*> catalog_class_records(bool const_iter) override {
+        return enumerate(P::classes, const_iter);
+    }
+    std::vector<const void*> catalog_method_records(bool const_iter) override {
+        return enumerate(P::methods, const_iter);
+    }
+    std::vector<const void*> catalog_definition_records(const Registry& r, int m, bool const_iter, size_t& size, bool& empty) override {
+        auto& specs = op(r, m).info->specs;
+        size = specs.size();
+        empty = specs.empty();
+        return enumerate(specs, const_iter);
+    }
+    const void* class_record_address(int rec) override {
+        return &Store<P>::recs[rec];
+    }
+    const void* definition_record_address(const Registry& r, int m, int d) override {
+        return &Store<P>::defs[uid(r, m)][d];
+    }
+    bool catalogs_empty(bool& classes_empty, bool& methods_empty) override {
+        classes_empty = P::classes.empty();
+        methods_empty = P::methods.empty();
+        return true;
+    }
+    void clear_catalog(int which, const Registry& r, int m) override {
+        if (which == 0)
+            P::classes.clear();
+        else if (which == 1)
+            P::methods.clear();
+        else {
+            op(r, m).info->specs.clear();
+            for (int d = 0; d < MAXDEF; ++d)
+                Store<P>::defs[uid(r, m)][d].method = nullptr;
+        }
     }
 
     std::string state_digest() override {
